@@ -17,6 +17,7 @@ from mon import refbufr as R
 from mon import nested
 from mon.compare import td_of
 from mon.gen import cases
+from mon.gen import failures
 from mon.gen.shapes import SHAPES, EdgePolicy
 from mon.checks.c07 import ASSOC_SHAPES, CHAIN_SHAPES
 
@@ -456,6 +457,7 @@ def run(ctx):
             except R.Unsupported:
                 continue
             try:
+                failures.maybe(ctx, [dec], [enc], every=6)
                 m = dec.process(msg.bytes)
             except Exception:
                 ctx.count('decode_raises')
@@ -482,6 +484,7 @@ def run(ctx):
         if not ctx.mine(bi):
             continue
         try:
+            failures.maybe(ctx, [dec], [enc], every=6)
             m = dec.process(msg.bytes)
         except Exception:
             ctx.count('decode_raises')
@@ -494,6 +497,7 @@ def run(ctx):
             if not ctx.mine(n):
                 continue
             try:
+                failures.maybe(ctx, [dec], [enc], every=6)
                 m = dec.process(msg.bytes)
             except Exception:
                 ctx.count('decode_raises')
@@ -531,6 +535,7 @@ def run(ctx):
         if any(me and me[0] == 'n' and me[2] > 0 and me[1] > 48 for s in msg.subsets for me in s.meta):
             continue
         try:
+            failures.maybe(ctx, [dec], [enc], every=6)
             m = dec.process(msg.bytes)
         except Exception:
             ctx.count('decode_raises')
